@@ -5,7 +5,7 @@ From RecordUpdate Require Import RecordSet.
 From ME Require Import Base.Machine Base.Fut Base.GenPrelude Gen.RetryGen Model.Retry Proofs.Retry_Spec.
 From ME Require Import Proofs.Retry_C0 Proofs.Retry_C1 Proofs.Retry_C2 Proofs.Retry_C3 Proofs.Retry_C4 Proofs.Retry_C5 Proofs.Retry_C6
   Proofs.Retry_C7 Proofs.Retry_C8 Proofs.Retry_C9 Proofs.Retry_C10 Proofs.Retry_C11 Proofs.Retry_C12 Proofs.Retry_N0 Proofs.Retry_N1
-  Proofs.Retry_N2 Proofs.Retry_N3.
+  Proofs.Retry_N2 Proofs.Retry_N3 Proofs.Retry_N13.
 Import ListNotations RecordSetNotations.
 #[local] Arguments norm : simpl nomatch.
 
@@ -60,11 +60,12 @@ Proof.
   - congruence.
 Qed.
 
-Lemma Wit_step0 s e s' j : SI s -> step0 s e = Some s' -> Wit s j -> fdone (rs s' j) = false -> Wit s' j.
+Lemma Wit_step0 s e s' j : SI s -> XC s -> step0 s e = Some s' -> Wit s j -> fdone (rs s' j) = false -> Wit s' j.
 Proof.
-  intros HS H [W|[W|[W|[W|[W|W]]]]] Hnd.
+  intros HS HX H [W|[W|[W|[W|[W|[W|W]]]]]] Hnd.
   - eapply keep1; eassumption. - eapply keep2; eassumption. - eapply keep3; eassumption.
   - eapply keep4; eassumption. - eapply keep5; eassumption. - eapply keep6; eassumption.
+  - eapply keep7; eassumption.
 Qed.
 
 (* a new retry future is born with its attempt-0 record in the queue *)
@@ -79,18 +80,18 @@ Qed.
 
 Definition LI (s : st) : Prop := forall j, j < nfut s -> fdone (rs s j) = false -> Wit s j.
 
-Lemma LI_step0 s e s' : LI s -> SI s -> step0 s e = Some s' -> LI s'.
+Lemma LI_step0 s e s' : LI s -> SI s -> XC s -> step0 s e = Some s' -> LI s'.
 Proof.
-  intros HL HS H j Hj Hnd. destruct (nfut_new _ _ _ H j Hj) as [Hj0|W]; [|left; exact W].
+  intros HL HS HX H j Hj Hnd. destruct (nfut_new _ _ _ H j Hj) as [Hj0|W]; [|left; exact W].
   pose proof (MONO_step0 _ _ _ H) as HM.
-  apply (Wit_step0 s e s' j HS H); [|exact Hnd].
+  apply (Wit_step0 s e s' j HS HX H); [|exact Hnd].
   apply HL; [exact Hj0|]. destruct (fdone (rs s j)) eqn:E; [|reflexivity].
   rewrite (mo_rdone _ _ HM j Hj0 E) in Hnd. discriminate.
 Qed.
 
 Lemma Wit_tick s ts j : Wit s j -> Wit (s <| clock := ts |>) j.
 Proof.
-  intros [W|[W|[W|[W|[W|W]]]]]; [w1|w2|w3|w4|w5|w6]; try exact W.
+  intros [W|[W|[W|[W|[W|[W|W]]]]]]; [w1|w2|w3|w4|w5|w6|w7]; try exact W.
   destruct W as [c Hc]. exists c. simpl. rewrite fcpre_tick. exact Hc.
 Qed.
 
@@ -99,7 +100,9 @@ Proof.
   apply (invariant_rule_r step LI).
   - intros j Hj. simpl in Hj. lia.
   - intros s0 e s' R IH H. apply step_split in H. destruct H as (s1 & Ht & H).
-    apply tick_eq in Ht. subst s1. eapply LI_step0; [| |exact H].
+    apply tick_eq in Ht. subst s1. eapply LI_step0; [| | |exact H].
     + intros j Hj Hnd. apply Wit_tick. apply IH; assumption.
     + apply SI_tick, R.
+    + intros t r d Hin Hjd Hc. destruct (XC_reach s0 R t r d Hin Hjd Hc) as [A|A]; [left|right; exact A].
+      simpl. rewrite fcpre_tick. exact A.
 Qed.
